@@ -56,7 +56,7 @@ package files
 //@   ensures r0 == mmf.size
 //@ func (mmf *MMFile) Buffer(offs int64, size int) ([]byte, error)
 //@   props C17
-//@   requires mmf.mapped() && mmf.size <= 1<<46 && 0 <= size && size <= 1<<46
+//@   requires mmf != nil && (mmf.mapped() || mmf.size < 0) && mmf.size <= 1<<46 && 0 <= size && size <= 1<<46
 //@   ensures 0 <= offs && offs < mmf.size ==> r1 == nil && sameArray(r0, mmf.mf) && off(r0) == off(mmf.mf) + offs && len(r0) == min(size, mmf.size - offs)
 //@   ensures !(0 <= offs && offs < mmf.size) ==> r1 != nil && r0 == nil
 //@ func NewMMFile(fname string, size int64) (*MMFile, error)
@@ -70,7 +70,10 @@ package files
 // changes nothing; on success the mapping has exactly the new size
 //@ func (mmf *MMFile) Grow(newSize int64) (err error)
 //@   props C17
-//@   requires mmf != nil && mmf.f != nil && mmf.size > 0
+//@   requires mmf.mapped() && mmf.f != nil
 //@   modifies mmf.mf, mmf.size, mmf.f, mmf.f.fsz, mmf.f.cut
 //@   ensures r0 == nil ==> mmf.mapped() && mmf.size == newSize && newSize > old(mmf.size) && newSize % 4096 == 0
 //@   ensures newSize <= old(mmf.size) || newSize % 4096 != 0 ==> r0 != nil && mmf.size == old(mmf.size) && mmf.mf == old(mmf.mf) && mmf.f == old(mmf.f)
+// a Grow that fails later (the file cannot be extended or mapped) leaves the store CLOSED (size -1: Buffer refuses every
+// offset), never half-open with the old size and no mapping
+//@   ensures r0 != nil ==> (mmf.size == old(mmf.size) && mmf.mf == old(mmf.mf)) || (mmf.size < 0 && mmf.f == nil)
